@@ -62,6 +62,10 @@ type armState struct {
 }
 
 func (sc *SC) armElemQuery(arm string, ea *elemAtoms, extra ...*pa.F) (*armState, error) {
+	return sc.armElemQueryHooks(arm, ea, nil, nil, extra...)
+}
+
+func (sc *SC) armElemQueryHooks(arm string, ea *elemAtoms, install func(q *pa.Query), init map[int]bool, extra ...*pa.F) (*armState, error) {
 	A := sc.A
 	as := &armState{}
 	as.evPM = A.EventVar("element-pattern-matched")
@@ -87,7 +91,7 @@ func (sc *SC) armElemQuery(arm string, ea *elemAtoms, extra ...*pa.F) (*armState
 	if a == nil {
 		return nil, fmt.Errorf("arm %s not recognised", arm)
 	}
-	q, err := A.NewQuery(sc.track(fs...))
+	q, err := A.NewQuery(sc.inArm(arm, sc.track(fs...)))
 	if err != nil {
 		return nil, err
 	}
@@ -132,8 +136,15 @@ func (sc *SC) armElemQuery(arm string, ea *elemAtoms, extra ...*pa.F) (*armState
 		}
 	}
 	q.Barrier[sc.S.Header] = true
+	if install != nil {
+		install(q)
+	}
+	iv := map[int]bool{as.evPM: false, as.evExh: false}
+	for k, v := range init {
+		iv[k] = v
+	}
 	if a.Entry != sc.S.Header {
-		q.Run(a.Entry, q.InitWith(map[int]bool{as.evPM: false, as.evExh: false}))
+		q.Run(a.Entry, q.InitWith(iv))
 	}
 	return as, nil
 }
